@@ -3,7 +3,7 @@ from vlib import core
 from checks.c06 import TYPES, rng_of
 from checks.c05 import guest_rep
 
-STRIDE = {"app": {"char": 1, "long": 8, "ptr": 8}, "sbx": {"char": 1, "long": 4, "ptr": 4}}
+STRIDE = {"app": {"char": 1, "long": 8, "ptr": 8, "short": 2, "int": 4, "uint": 4}, "sbx": {"char": 1, "long": 4, "ptr": 4, "short": 2, "int": 4, "uint": 4}}
 IDX = [t for t in TYPES if t != "bool"]
 WRAPPED = ["int", "uchar", "llong", "ulong"]
 PARTS = [("h_index.cpp", [f"-DIDX_PART={i}"]) for i in range(16)] + [("h_index.cpp", [])]
@@ -58,7 +58,7 @@ def gen_ops(chk, thorough):
                         vv = vals if (thorough or w == "plain") else rng.sample(vals, min(8, len(vals)))
                         for v in vv:
                             ops.append(f"index {kind} {el} {ln} {w} {nty} {v}")
-    shapes = [("long", "2x3"), ("long", "3x5"), ("char", "3x5"), ("ptr", "4x1"), ("long", "2x3x4")]
+    shapes = [("long", "2x3"), ("long", "3x5"), ("char", "3x5"), ("ptr", "4x1"), ("long", "2x3x4"), ("short", "3x5"), ("short", "4x1"), ("int", "2x3"), ("uint", "4x1")]
     for kind in ("app", "sbx"):
         for el, sh in shapes:
             dims = [int(x) for x in sh.split("x")]
